@@ -256,7 +256,7 @@ func ruleSnapshotWipe(h *H, rule, F string) {
 		e := req.edges(fn)
 		for i, cl := range clears {
 			ok, path := ir.MustPassEdge(fn, nil, cl, e, nil)
-			h.Verdict(ok, rule, fmt.Sprintf("follower snapshot install: Wal.Clear #%d in %s", i+1, ir.FuncName(fn)), h.pos(cl),
+			h.Verdict(ok, rule, fmt.Sprintf("follower snapshot install: Wal.Clear #%d before the sender's term check", i+1), h.pos(cl),
 				"after the sender's term check", "the WAL is wiped before the term of the snapshot's sender has been checked against the controller's term", witness(path))
 		}
 	}
